@@ -88,6 +88,10 @@ def work(item):
                             break
                     if fmt == 'gaussian94lib' and block.endswith('\n\n'):
                         rec['bad'].append(('header_lines_marked', 'gaussian94lib got a blank line after the header'))
+                    # the payload must start on a line of its own: the block ends with a line boundary
+                    if block and block[-1] not in '\n\r\x0b\x0c\x1c\x1d\x1e\x85\u2028\u2029':
+                        rec['bad'].append(('header_lines_marked', 'the last header line is not terminated: the first line of the data is glued to it (%r)'
+                                           % headed[len(pre) + len(block) - 20:len(pre) + len(block) + 12]))
                 # header states name, role, version, library version
                 # the text of the header with the per-line markers and all white space (incl. line separators) removed
                 flat = ''.join(''.join(ln[len(marker):] if ln.startswith(marker) else ln for ln in headed.splitlines()).split())
@@ -95,10 +99,11 @@ def work(item):
                     if ''.join(val.split()) not in flat:
                         rec['bad'].append(('header_states', 'the header does not state the %s' % what))
             # reading back
-            if fmt in rfmts:
+            rfmt = 'gaussian94' if fmt == 'gaussian94lib' else fmt      # the Gaussian reader accepts the system-library form too
+            if rfmt in rfmts:
                 def rd(t):
                     try:
-                        return ('ok', readers.read_formatted_basis_str(t, fmt))
+                        return ('ok', readers.read_formatted_basis_str(t, rfmt))
                     except Exception as e:
                         return ('err', type(e).__name__)
                 rb, rh = rd(bare), rd(headed)
